@@ -1,8 +1,10 @@
 package props
 
 import (
+	"bytes"
 	"context"
 	"fmt"
+	"io"
 	"net/http"
 	"os"
 	"path/filepath"
@@ -76,6 +78,7 @@ type interposer struct {
 	counts     map[string]int
 	actions    []ipAction
 	fired      int64
+	held       int64 // replies delivered after their machine was killed and seen stopped
 	killed     []string
 	inflight   int64
 	lastMethod string
@@ -134,6 +137,34 @@ func (ip *interposer) RoundTrip(req *http.Request) (*http.Response, error) {
 	}
 	resp, err := ip.next.RoundTrip(req)
 	for _, a := range acts {
+		if a.When == "after" && a.What == "kill-target-hold" {
+			// The reply is in flight when its machine dies: take the complete reply off the wire,
+			// kill the machine, let the driver notice the loss, and only then deliver the reply.
+			if err == nil && resp != nil && resp.Body != nil {
+				body, rerr := io.ReadAll(resp.Body)
+				resp.Body.Close()
+				if rerr == nil {
+					resp.Body = io.NopCloser(bytes.NewReader(body))
+					if m := ip.machineOfRequest(req); m != nil {
+						atomic.AddInt64(&ip.fired, 1)
+						ip.kill(m, m.Addr)
+						// deliver once the executor itself has recorded the loss (its own log line); if
+						// that is not seen, the reply counts as an ordinary kill after the call
+						want := "lost machine " + m.Addr + ":"
+						for i := 0; i < 1000; i++ {
+							if logSeen(want) {
+								atomic.AddInt64(&ip.held, 1)
+								break
+							}
+							time.Sleep(10 * time.Millisecond)
+						}
+					}
+				} else {
+					resp.Body = io.NopCloser(io.MultiReader(bytes.NewReader(body), errReader{rerr}))
+				}
+			}
+			continue
+		}
 		if a.When == "after" {
 			ip.apply(a, req)
 		}
@@ -188,6 +219,10 @@ func (ip *interposer) kill(m *bigmachine.Machine, label string) {
 		ip.mu.Unlock()
 	}
 }
+
+type errReader struct{ err error }
+
+func (e errReader) Read([]byte) (int, error) { return 0, e.err }
 
 func (ip *interposer) snapshot() []rpcEvent {
 	ip.mu.Lock()
@@ -255,6 +290,18 @@ func logTail(n int) string {
 		}
 	}
 	return strings.Join(out, " || ")
+}
+
+// logSeen tells whether the library logged a line containing s (within the ring's memory).
+func logSeen(s string) bool {
+	logRing.mu.Lock()
+	defer logRing.mu.Unlock()
+	for i := len(logRing.lines) - 1; i >= 0; i-- {
+		if strings.Contains(logRing.lines[i], s) {
+			return true
+		}
+	}
+	return false
 }
 
 func quietLogs() {
